@@ -563,6 +563,10 @@ def generate() -> dict[str, str]:
         srows.append(f"({coq_string(wire[cls])}, {w})")
     txt += "(* sections handled by the hand model model/Str.v, with their offset width *)\n"
     txt += "Definition gen_string_sections : list (string * nat) :=\n  [" + "; ".join(srows) + "].\n\n"
+    from richchk.transcoder.richchk.richchk_section_transcoder_factory import RichChkSectionTranscoderFactory as RF
+    txt += "(* every name registered in RichChkSectionTranscoderFactory.transcoders *)\n"
+    txt += "Definition registered_rich_sections : list string :=\n  [" + "; ".join(
+        coq_string(k.value) for k in RF.transcoders) + "].\n\n"
     txt += "(* every name registered in ChkSectionTranscoderFactory.transcoders *)\n"
     txt += "Definition registered_chk_sections : list string :=\n  [" + "; ".join(
         coq_string(n) for n in reg) + "].\n"
